@@ -185,6 +185,10 @@ def main(tier, seed):
     log(f'[C16] {len(items)} harnesses for types with a Static total size')
     cov = kcheck.run_and_judge(PROP, tier, seed, items, info, out, venc.make_replay(('encode',)), venc.value_arms,
                                own_prefixes=('C16:',), extract=venc.extract_words, inner_fn=venc.rf_text)
+    # the size lattice kernel
+    from . import c12
+    kcov = c12.run_kernels(PROP, 'c16_', out, lambda k, mine: (False, {'note': 'kernel counterexample: see kani.log'}))
+    cov['size_lattice_kernel'] = kcov
     stats['imprecise'] = stats['imprecise'][:20]
     cov['table_comparison'] = stats
     cov['functions_encoded'] = ['analyzer::Schema::new + field_size/decl_size/parent_size/payload_size/total_size/padded_size (run concretely by the driver)',
